@@ -18,6 +18,7 @@
 #define __TBB_cache_aligned_allocator_H
 
 #include "detail/_utils.h"
+#include "detail/_exception.h"
 #include "detail/_namespace_injection.h"
 #include <cstdlib>
 #include <utility>
@@ -121,7 +122,13 @@ private:
     void* do_allocate(std::size_t bytes, std::size_t alignment) override {
         // TODO: make it common with tbb_allocator.cpp
         std::size_t cache_line_alignment = correct_alignment(alignment);
-        std::size_t space = correct_size(bytes) + cache_line_alignment;
+        std::size_t size = correct_size(bytes);
+        // The padded size must be representable: a wrapped sum would obtain a tiny block from the upstream resource
+        // and hand it out (header included) as if it held `bytes` bytes.
+        if (size > ~std::size_t(0) - cache_line_alignment) {
+            throw_exception(exception_id::bad_alloc);
+        }
+        std::size_t space = size + cache_line_alignment;
         std::uintptr_t base = reinterpret_cast<std::uintptr_t>(m_upstream->allocate(space));
         __TBB_ASSERT(base != 0, "Upstream resource returned nullptr.");
 
